@@ -74,6 +74,19 @@ CHECKS = {
         note="Quick tier compares the first 30 and last 12 tail intervals per zone and walks every 40th zone's tail to 9999; thorough compares all. CLDR windows mapping and zone locations fields are skipped by length only.",
         technique="independent TLA+ decoder of the database bytes run by TLC + rule evaluation in TLA+, compared with API walks by trace validation",
     ),
+    "C08": dict(
+        category="model_checking",
+        text=("TextProtocol.tla states the create/parse protocol; PatternScan.tla models the quoting layer of the pattern language as a "
+              "scanner state machine and TLC proves its totality (never stuck, always ends Ok or a named error) over all texts up to 4-5 "
+              "characters; on the real package every small text over the structural alphabet, standard patterns, random token "
+              "concatenations and malformed families are created for 7 pattern types and several cultures, and formatted values plus "
+              "mutations / out-of-range / non-ASCII / empty / NUL inputs are parsed; TLC replays each outcome through the protocol "
+              "(creation: ok | InvalidPatternError; parse: success with a valid value | failure with its error available; no exception, "
+              "no hang) and compares creation with the scanner's prediction as a reference clause."),
+        design_ref="DESIGN.md section 5 C08",
+        note="Field-level grammar (which letters/counts each type accepts) is not predicted by the spec; only the quoting layer is (as a reference clause).",
+        technique="TLA+ protocol + scanner state machine checked by TLC (totality) + TLC trace validation of fuzzed create/parse outcomes",
+    ),
     "C09": dict(
         category="model_checking",
         text=("DateArith.tla defines month ordinals in chronological order (Hebrew: molad month count, both numberings), plus_months as "
